@@ -522,6 +522,28 @@ Proof.
     apply Z.div_le_upper_bound; [lia|]. nia.
 Qed.
 
+Lemma nan_cast_from_zero n : forall i, 0 <= i ->
+  Forall cell_ok (nan_cast_from i 0 n) /\ length (nan_cast_from i 0 n) = n.
+Proof.
+  induction n as [|n IH]; intros i Hi; cbn [nan_cast_from length]; [split; [constructor|reflexivity]|].
+  destruct (IH (i + 1)) as [H1 H2]; [lia|]. replace (i <? 0) with false by lia.
+  split; [constructor; [unfold cell_ok; lia|exact H1]|now rewrite H2].
+Qed.
+
+(* also fewer than four points on a constant axis: NaN is cast to 0 *)
+Lemma discretize_ok' ad :
+  ptp ad <> 0 \/ zlen ad < 4 ->
+  Forall cell_ok (discretize ad) /\ length (discretize ad) = length ad.
+Proof.
+  intros H. destruct (Z.eq_dec (ptp ad) 0) as [E|E]; [|now apply discretize_ok].
+  destruct H as [H|H]; [contradiction|].
+  destruct ad as [|z0 r]; [split; [constructor|reflexivity]|].
+  unfold ptp in E. unfold discretize. replace (zmax_list z0 r - zmin_list z0 r =? 0) with true by lia.
+  unfold nan_cast. unfold zlen in H.
+  replace (4 * (Z.of_nat (length (z0 :: r)) / 4)) with 0 by lia.
+  apply nan_cast_from_zero. lia.
+Qed.
+
 Lemma populate_ok xs : forall ys seen,
   length ys = length xs -> Forall cell_ok xs -> Forall cell_ok ys ->
   exists k, populate xs ys seen = Some k /\ length k = length xs.
@@ -562,6 +584,8 @@ Section Proofs.
   Local Notation pad_phase := (pad_phase rng seed47 choice_st).
   Local Notation downsample_grid := (downsample_grid rng seed47 choice_st).
   Local Notation downsample_rand := (downsample_rand rng seed47 choice_st).
+  Local Notation downsample_grid_req := (downsample_grid_req rng seed47 choice_st).
+  Local Notation downsample_rand_req := (downsample_rand_req rng seed47 choice_st).
   Local Notation limit_events := (limit_events rng seed47 choice_st).
   Local Notation filter_all := (filter_all rng seed47 choice_st).
   Local Notation scatter_ds := (scatter_ds rng seed47 choice_st).
@@ -620,17 +644,31 @@ Section Proofs.
     fst (downsample_rand g1 a samples ri) = fst (downsample_rand g2 a samples ri).
   Proof. reflexivity. Qed.
 
+  Lemma grid_req_state_independent g1 g2 w a b samples ri :
+    fst (downsample_grid_req g1 w a b samples ri) = fst (downsample_grid_req g2 w a b samples ri).
+  Proof.
+    unfold C16.downsample_grid_req. destruct (to_uint32 w samples); [|reflexivity].
+    apply grid_state_independent.
+  Qed.
+
+  Lemma rand_req_state_independent g1 g2 w a samples ri :
+    fst (downsample_rand_req g1 w a samples ri) = fst (downsample_rand_req g2 w a samples ri).
+  Proof. reflexivity. Qed.
+
   Lemma limit_state_independent g1 g2 arr_all limit :
     fst (limit_events g1 arr_all limit) = fst (limit_events g2 arr_all limit).
   Proof. unfold C16.limit_events. destruct (limit >? 0); reflexivity. Qed.
 
-  Lemma scatter_state_independent g1 g2 xf yf xsf ysf fall ds ri :
-    fst (scatter_ds g1 xf yf xsf ysf fall ds ri) = fst (scatter_ds g2 xf yf xsf ysf fall ds ri).
+  Lemma scatter_state_independent g1 g2 xf yf xlf ylf xlog ylog fall ds ri :
+    fst (scatter_ds g1 xf yf xlf ylf xlog ylog fall ds ri)
+    = fst (scatter_ds g2 xf yf xlf ylf xlog ylog fall ds ri).
   Proof.
     unfold C16.scatter_ds. destruct (ds <? 0); [reflexivity|].
-    pose proof (grid_state_independent g1 g2 (select fall xsf) (select fall ysf) ds ri) as H.
-    destruct (downsample_grid g1 _ _ ds ri) as [[? ? ?|?] ?],
-             (downsample_grid g2 _ _ ds ri) as [[? ? ?|?] ?];
+    pose proof (grid_req_state_independent g1 g2 false
+                  (select fall (apply_scale xlog xf xlf)) (select fall (apply_scale ylog yf ylf))
+                  (Z.min ds (count_true fall)) ri) as H.
+    destruct (downsample_grid_req g1 false _ _ _ ri) as [[? ? ?|?] ?],
+             (downsample_grid_req g2 false _ _ _ ri) as [[? ? ?|?] ?];
       cbn [fst] in H; try discriminate H; injection H; intros; subst; reflexivity.
   Qed.
 
@@ -676,7 +714,8 @@ Section Proofs.
 
   Lemma grid_phase_ok g ad bd samples good :
     zlen ad = count_true good -> length bd = length ad -> 0 <= samples ->
-    (negb (samples =? 0) && (samples <? zlen ad) = true -> ptp ad <> 0 /\ ptp bd <> 0) ->
+    (negb (samples =? 0) && (samples <? zlen ad) = true ->
+     (ptp ad <> 0 /\ ptp bd <> 0) \/ zlen ad < 4) ->
     exists keep1 g', grid_phase g ad bd samples good good = (inl keep1, g') /\
       length keep1 = length good /\ subset_mask keep1 good = true /\
       count_true keep1 = (if negb (samples =? 0) && (samples <? zlen ad)
@@ -684,8 +723,9 @@ Section Proofs.
   Proof.
     intros Had Hbd Hs Hguard. unfold C16.grid_phase.
     destruct (negb (samples =? 0) && (samples <? zlen ad)) eqn:E.
-    - destruct (Hguard eq_refl) as [Hpa Hpb].
-      destruct (discretize_ok ad Hpa) as [Hxa Hla]. destruct (discretize_ok bd Hpb) as [Hxb Hlb].
+    - assert (Hzb : zlen bd = zlen ad) by (unfold zlen; lia).
+      destruct (discretize_ok' ad) as [Hxa Hla]; [destruct (Hguard eq_refl) as [[? ?]|?]; [now left|now right]|].
+      destruct (discretize_ok' bd) as [Hxb Hlb]; [destruct (Hguard eq_refl) as [[? ?]|?]; [now left|right; lia]|].
       destruct (populate_ok (discretize ad) (discretize bd) PositiveSet.empty) as [keepd [Hk Hkl]];
         [lia|assumption|assumption|].
       rewrite Hk.
@@ -787,7 +827,7 @@ Section Proofs.
       [exact Had|unfold zlen in *; lia|exact Hs| |].
     { intros Hrun. unfold no_constant_axis, grid_runs, axes_not_constant in Hguard.
       fold good in Hguard. fold ad bd in Hguard. rewrite <- Had in Hguard.
-      rewrite Hrun in Hguard. cbn [negb orb] in Hguard. lia. }
+      rewrite Hrun in Hguard. cbn [negb orb] in Hguard. fold good in Hguard. lia. }
     rewrite Hg. pose proof (count_true_bounds good) as Hgb.
     assert (HN : zlen good = zlen a) by (unfold zlen; congruence).
     destruct ri.
@@ -869,29 +909,80 @@ Section Proofs.
       exact Hkc.
   Qed.
 
+  (* ---- the request conversion ------------------------------------------- *)
+  Lemma to_uint32_in_range w samples :
+    0 <= samples < 4294967296 -> to_uint32 w samples = Some samples.
+  Proof.
+    intros H. unfold to_uint32. destruct w.
+    - rewrite Z.mod_small by lia. reflexivity.
+    - replace ((0 <=? samples) && (samples <? 4294967296)) with true by lia. reflexivity.
+  Qed.
+
+  Lemma grid_req_count g w a b samples ri :
+    length a = length b -> 0 <= samples < 4294967296 ->
+    no_constant_axis a b samples = true ->
+    (ri = false -> samples <= zlen a) ->
+    exists keep g',
+      downsample_grid_req g w a b samples ri = (Ok (select keep a) (select keep b) keep, g') /\
+      length keep = length a /\
+      count_true keep = spec_count samples
+                          (if ri then count_true (good_mask a b) else zlen a) /\
+      count_true (map2 andb keep (good_mask a b))
+      = spec_count samples (count_true (good_mask a b)) /\
+      (ri = true -> subset_mask keep (good_mask a b) = true).
+  Proof.
+    intros Hab Hs Hg Hr. unfold C16.downsample_grid_req. rewrite to_uint32_in_range by exact Hs.
+    apply grid_count; [exact Hab|lia|exact Hg|exact Hr].
+  Qed.
+
+  Lemma rand_req_count g w a samples ri :
+    0 <= samples < 4294967296 ->
+    exists idx g',
+      downsample_rand_req g w a samples ri = (Ok (select idx a) [] idx, g') /\
+      length idx = length a /\
+      count_true idx = spec_count samples
+                         (if ri then count_true (map negb (map is_bad a)) else zlen a) /\
+      (ri = true -> subset_mask idx (map negb (map is_bad a)) = true).
+  Proof.
+    intros Hs. unfold C16.downsample_rand_req. rewrite to_uint32_in_range by exact Hs.
+    apply rand_count. lia.
+  Qed.
+
   (* ---- "limit events" --------------------------------------------------- *)
   Lemma limit_count g arr_all limit :
+    zlen arr_all < 4294967296 ->
     exists m g',
       limit_events g arr_all limit = (inl m, g') /\
       subset_mask m arr_all = true /\
       count_true m = (if limit >? 0 then Z.min limit (count_true arr_all)
                       else count_true arr_all).
   Proof.
-    unfold C16.limit_events. destruct (limit >? 0) eqn:E.
+    intros Hlen. unfold C16.limit_events. destruct (limit >? 0) eqn:E.
     - set (sub := select arr_all arr_all).
-      destruct (rand_count g (map (fun _ : bool => Fin 1) sub) limit false) as [idx [g' [Hr [Hl [Hc _]]]]]; [lia|].
+      assert (Hsub : zlen sub = count_true arr_all) by (apply select_length; reflexivity).
+      pose proof (count_true_bounds arr_all) as Hb.
+      destruct (rand_req_count g false (map (fun _ : bool => Fin 1) sub) (Z.min limit (zlen sub)) false)
+        as [idx [g' [Hr [Hl [Hc _]]]]]; [lia|].
       rewrite Hr. exists (scatter arr_all (map2 andb sub idx) arr_all), g'.
       rewrite map_length in Hl. rewrite zlen_map in Hc.
       rewrite (map2_andb_true sub idx) by (first [exact Hl | apply select_self_true]).
-      assert (Hsub : zlen sub = count_true arr_all) by (apply select_length; reflexivity).
       split; [reflexivity|]. split; [apply subset_scatter; [reflexivity|apply subset_mask_refl]|].
       rewrite count_scatter_self; [|unfold zlen in *; lia].
-      rewrite Hc, Hsub. unfold spec_count. destruct (limit =? 0) eqn:E0; lia.
+      rewrite Hc, Hsub. unfold spec_count.
+      destruct (Z.min limit (count_true arr_all) =? 0) eqn:E0; lia.
     - exists arr_all, g. split; [reflexivity|]. split; [apply subset_mask_refl|reflexivity].
   Qed.
 
   (* Filter.update step 4 as a whole *)
+  Lemma map2_length_le {A B C} (f : A -> B -> C) l : forall l',
+    (length (map2 f l l') <= length l)%nat.
+  Proof.
+    induction l as [|x l IH]; intros [|y l']; cbn [map2 length]; try lia.
+    specialize (IH l'). lia.
+  Qed.
+
   Lemma filter_all_count g box invalid polygon manual enable limit :
+    zlen box < 4294967296 ->
     let comb := map2 andb (map2 andb (map2 andb box invalid) polygon) manual in
     exists m g',
       filter_all g box invalid polygon manual enable limit = (inl m, g') /\
@@ -901,43 +992,69 @@ Section Proofs.
        count_true m = (if limit >? 0 then Z.min limit (count_true comb)
                        else count_true comb)).
   Proof.
-    intros comb. unfold C16.filter_all. destruct enable.
+    intros Hlen comb. unfold C16.filter_all. destruct enable.
     - destruct (limit_count g comb limit) as [m [g' [H1 [H2 H3]]]].
+      { unfold comb, zlen in *.
+        pose proof (map2_length_le andb (map2 andb (map2 andb box invalid) polygon) manual).
+        pose proof (map2_length_le andb (map2 andb box invalid) polygon).
+        pose proof (map2_length_le andb box invalid). lia. }
       exists m, g'. split; [exact H1|]. split; [discriminate|]. intros _. split; assumption.
     - exists (ones box), g. split; [reflexivity|]. split; [reflexivity|discriminate].
   Qed.
 
   (* ---- get_downsampled_scatter ------------------------------------------ *)
-  Lemma scatter_count g xf yf xsf ysf fall ds ri :
+  Lemma spec_count_cap ds cnt elig :
+    0 <= ds -> 0 <= elig <= cnt -> spec_count (Z.min ds cnt) elig = spec_count ds elig.
+  Proof.
+    intros Hd He. unfold spec_count.
+    destruct (ds =? 0) eqn:E1; destruct (Z.min ds cnt =? 0) eqn:E2; lia.
+  Qed.
+
+  Lemma scatter_count g xf yf xlf ylf xlog ylog fall ds ri :
     length xf = length fall -> length yf = length fall ->
-    length xsf = length fall -> length ysf = length fall ->
-    0 <= ds ->
-    no_constant_axis (select fall xsf) (select fall ysf) ds = true ->
-    (ri = false -> ds <= count_true fall) ->
-    exists mask g',
-      scatter_ds g xf yf xsf ysf fall ds ri
+    length xlf = length fall -> length ylf = length fall ->
+    zlen fall < 4294967296 -> 0 <= ds ->
+    let xs := select fall (apply_scale xlog xf xlf) in
+    let ys := select fall (apply_scale ylog yf ylf) in
+    no_constant_axis xs ys (Z.min ds (count_true fall)) = true ->
+    exists idx mask g',
+      scatter_ds g xf yf xlf ylf xlog ylog fall ds ri
       = (Ok (select mask xf) (select mask yf) mask, g') /\
+      mask = scatter fall idx (zeros fall) /\
       length mask = length fall /\
       subset_mask mask fall = true /\
       count_true mask =
-        spec_count ds (if ri
-                       then count_true (good_mask (select fall xsf) (select fall ysf))
-                       else count_true fall).
+        spec_count ds (if ri then count_true (good_mask xs ys) else count_true fall) /\
+      (* valid (after scaling) events come first, invalid ones only fill up *)
+      length idx = length xs /\
+      count_true (map2 andb idx (good_mask xs ys))
+      = spec_count ds (count_true (good_mask xs ys)) /\
+      (ri = true -> subset_mask idx (good_mask xs ys) = true).
   Proof.
-    intros Hx Hy Hxs Hys Hds Hguard Hreq. unfold C16.scatter_ds.
+    intros Hx Hy Hxl Hyl Hlen Hds xs ys Hguard. unfold C16.scatter_ds.
     replace (ds <? 0) with false by lia.
-    assert (Hlx : zlen (select fall xsf) = count_true fall) by (apply select_length; congruence).
-    assert (Hly : zlen (select fall ysf) = count_true fall) by (apply select_length; congruence).
-    destruct (grid_count g (select fall xsf) (select fall ysf) ds ri) as [idx [g' [Hg [Hl [Hc _]]]]];
-      [unfold zlen in *; lia|exact Hds|exact Hguard|rewrite Hlx; exact Hreq|].
-    rewrite Hg. exists (scatter fall idx (zeros fall)), g'.
+    assert (Hsx : length (apply_scale xlog xf xlf) = length fall) by (destruct xlog; assumption).
+    assert (Hsy : length (apply_scale ylog yf ylf) = length fall) by (destruct ylog; assumption).
+    fold xs ys.
+    assert (Hlx : zlen xs = count_true fall) by (apply select_length; exact Hsx).
+    assert (Hly : zlen ys = count_true fall) by (apply select_length; exact Hsy).
+    pose proof (count_true_bounds fall) as Hb.
+    destruct (grid_req_count g false xs ys (Z.min ds (count_true fall)) ri)
+      as [idx [g' [Hg [Hl [Hc [Hv Hsub]]]]]];
+      [unfold zlen in *; lia|lia|exact Hguard|intros _; lia|].
+    rewrite Hg. exists idx, (scatter fall idx (zeros fall)), g'.
     assert (Hz : zlen idx = count_true fall) by (unfold zlen in *; lia).
-    split; [|split; [|split]].
+    pose proof (count_true_bounds (good_mask xs ys)) as Hgb.
+    assert (Hgl : zlen (good_mask xs ys) = count_true fall).
+    { unfold zlen. rewrite good_mask_length by (unfold zlen in *; lia). exact Hlx. }
+    split; [|split; [reflexivity|split; [|split; [|split; [|split; [exact Hl|split; [|exact Hsub]]]]]]].
     - rewrite (select_scatter fall idx xf fall), (select_scatter fall idx yf fall) by (auto; congruence).
       reflexivity.
     - rewrite scatter_length. unfold zeros. now rewrite map_length.
     - apply subset_scatter; [unfold zeros; now rewrite map_length|apply subset_zeros].
-    - rewrite count_scatter_zeros by (auto; congruence). rewrite Hc, Hlx. reflexivity.
+    - rewrite count_scatter_zeros by (auto; congruence). rewrite Hc, Hlx.
+      destruct ri; apply spec_count_cap; lia.
+    - rewrite Hv. apply spec_count_cap; lia.
   Qed.
 End Proofs.
 
@@ -997,33 +1114,27 @@ Proof.
   split; [reflexivity|]. split; [cbn; lia|]. intros. reflexivity.
 Qed.
 
-(* the dataset level inherits the first one *)
-Lemma scatter_overrequest_raises (rng : Type) (seed47 : rng)
-      (choice_st : rng -> Z -> Z -> list Z * rng) g xf yf xsf ysf fall ds :
-  length xsf = length fall -> length ysf = length fall ->
-  count_true fall < ds ->
-  fst (scatter_ds rng seed47 choice_st g xf yf xsf ysf fall ds false) = Err ErrValue.
+(* the request conversion: a Python int >= 2^32 raises OverflowError, a numpy
+   integer wraps and fewer events than requested and available come back *)
+Lemma request_overflow_refuted :
+  exists a samples,
+    0 <= samples /\
+    (forall (rng : Type) (seed47 : rng) choice_st g ri,
+       fst (downsample_rand_req rng seed47 choice_st g false a samples ri) = Err ErrOverflow) /\
+    (forall (rng : Type) (seed47 : rng) choice_st g ri,
+       fst (downsample_grid_req rng seed47 choice_st g false a a samples ri) = Err ErrOverflow).
 Proof.
-  intros Hx Hy Hd. unfold scatter_ds. pose proof (count_true_bounds fall).
-  replace (ds <? 0) with false by lia.
-  assert (Hlx : zlen (select fall xsf) = count_true fall) by (apply select_length; congruence).
-  assert (Hly : zlen (select fall ysf) = count_true fall) by (apply select_length; congruence).
-  assert (H0 : fst (downsample_grid rng seed47 choice_st g (select fall xsf) (select fall ysf) ds false)
-               = Err ErrValue).
-  { apply grid_overrequest_raises; unfold zlen in *; lia. }
-  destruct (downsample_grid rng seed47 choice_st g (select fall xsf) (select fall ysf) ds false) as [r g'].
-  cbn [fst] in H0. subst r. reflexivity.
+  exists [Fin 0; Fin 8; Fin 16], 4294967296. split; [lia|]. split; intros; reflexivity.
 Qed.
 
-Lemma scatter_overrequest_refuted :
-  exists xf yf fall ds,
-    length xf = length fall /\ length yf = length fall /\ 0 <= ds /\
-    forall (rng : Type) (seed47 : rng) choice_st g,
-      fst (scatter_ds rng seed47 choice_st g xf yf xf yf fall ds false) = Err ErrValue.
+Lemma request_wrap_refuted :
+  exists a samples idx,
+    0 <= samples /\ count_true idx <> spec_count samples (zlen a) /\
+    fst (downsample_rand_req unit tt (fun _ n k => (arange (Z.to_nat k), tt)) tt true a samples false)
+    = Ok (select idx a) [] idx.
 Proof.
-  exists [Fin 1; Fin 2; Fin 3], [Fin 1; Fin 5; Fin 2], [true; false; true], 3.
-  split; [reflexivity|]. split; [reflexivity|]. split; [lia|].
-  intros. apply scatter_overrequest_raises; reflexivity.
+  exists [Fin 0; Fin 1; Fin 2; Fin 3; Fin 4], 4294967299, [true; true; true; false; false].
+  split; [lia|]. split; [vm_compute; discriminate|]. vm_compute. reflexivity.
 Qed.
 
 (* ======================================================================== *)
@@ -1090,9 +1201,12 @@ Example ex_scatter_hyps :
   let yf := [Fin 9; Fin 7; Fin 5; Fin 3; Fin 1] in
   let fall := [true; true; false; true; true] in
   no_constant_axis (select fall xf) (select fall yf) 2 = true /\
-  fst (scatter_ds unit tt ex_choice tt xf yf xf yf fall 2 false)
-  = Ok [Fin 4; Fin 5] [Fin 3; Fin 1] [false; false; false; true; true].
-Proof. vm_compute. split; reflexivity. Qed.
+  fst (scatter_ds unit tt ex_choice tt xf yf xf yf false false fall 2 false)
+  = Ok [Fin 4; Fin 5] [Fin 3; Fin 1] [false; false; false; true; true] /\
+  (* a request beyond the data: everything that passed the filter *)
+  fst (scatter_ds unit tt ex_choice tt xf yf xf yf false false fall 4294967299 false)
+  = Ok [Fin 1; Fin 2; Fin 4; Fin 5] [Fin 9; Fin 7; Fin 3; Fin 1] [true; true; false; true; true].
+Proof. vm_compute. repeat split; reflexivity. Qed.
 
 (* ======================================================================== *)
 (* the selection depends on the values only up to a positive unit per array  *)
@@ -1173,3 +1287,68 @@ Example ex_scale :
                                 (map (scale_fval 1024) ex_b) 6 true))
   = inl [true; true; false; true; false; true; false; true; true].
 Proof. vm_compute. reflexivity. Qed.
+
+(* ======================================================================== *)
+(* eligibility at the dataset level in terms of the unscaled features        *)
+(* ======================================================================== *)
+(* oracle hypothesis on the logarithm (checked by the harness on every array
+   it scales): log x is nan/inf exactly when x is nan/inf or x <= 0 *)
+Definition log_ok (f lf : list fval) : Prop := map is_bad lf = map log_bad f.
+
+Definition scale_bad (log : bool) (x : fval) : bool :=
+  if log then log_bad x else is_bad x.
+
+Definition scaled_good (xlog ylog : bool) (xf yf : list fval) : list bool :=
+  map2 (fun x y => negb (scale_bad xlog x || scale_bad ylog y)) xf yf.
+
+Lemma select_map2 {A B C} (f : A -> B -> C) m : forall l l',
+  length l = length l' ->
+  map2 f (select m l) (select m l') = select m (map2 f l l').
+Proof.
+  induction m as [|b m IH]; intros [|x l] [|y l'] H; cbn [length] in H; try discriminate H;
+    cbn [select map2]; try reflexivity.
+  destruct b; cbn [map2]; rewrite IH by lia; reflexivity.
+Qed.
+
+Lemma map2_map_negb_orb {A B} (f : A -> bool) (g : B -> bool) l : forall l',
+  map negb (map2 orb (map f l) (map g l')) = map2 (fun x y => negb (f x || g y)) l l'.
+Proof.
+  induction l as [|x l IH]; intros [|y l']; cbn [map map2]; try reflexivity. now rewrite IH.
+Qed.
+
+Lemma scaled_good_mask xf yf xlf ylf xlog ylog fall :
+  length xf = length yf -> length xlf = length xf -> length ylf = length yf ->
+  log_ok xf xlf -> log_ok yf ylf ->
+  good_mask (select fall (apply_scale xlog xf xlf)) (select fall (apply_scale ylog yf ylf))
+  = select fall (scaled_good xlog ylog xf yf).
+Proof.
+  intros Hxy Hxl Hyl Hx Hy. unfold good_mask, scaled_good.
+  rewrite <- !select_map.
+  assert (Ex : map is_bad (apply_scale xlog xf xlf) = map (scale_bad xlog) xf).
+  { destruct xlog; [exact Hx|reflexivity]. }
+  assert (Ey : map is_bad (apply_scale ylog yf ylf) = map (scale_bad ylog) yf).
+  { destruct ylog; [exact Hy|reflexivity]. }
+  rewrite Ex, Ey, select_map2 by (rewrite !map_length; exact Hxy).
+  rewrite <- select_map. now rewrite map2_map_negb_orb.
+Qed.
+
+(* three valid points on a constant axis and the grid step runs: no error
+   (the guard no_constant_axis only excludes four or more) *)
+Example ex_constant_three :
+  let a := [Fin 8; Fin 8; NaN; Fin 8] in
+  let b := [Fin 0; Fin 9; Fin 1; Fin 30] in
+  grid_runs a b 2 = true /\ axes_not_constant a b = false /\
+  no_constant_axis a b 2 = true /\
+  mask_of (fst (downsample_grid unit tt ex_choice tt a b 2 false))
+  = inl [false; true; false; true].
+Proof. vm_compute. repeat split; reflexivity. Qed.
+
+(* a limit far beyond the data (and beyond 2^32) keeps everything *)
+Example ex_limit_huge :
+  fst (limit_events unit tt ex_choice tt [true; false; true; true] 1000000000000)
+  = inl [true; false; true; true].
+Proof. vm_compute. reflexivity. Qed.
+
+Example ex_log_ok :
+  log_ok [Fin 8; Fin 0; Fin (-3); NaN; PInf] [Fin 17; NInf; NaN; NaN; PInf].
+Proof. reflexivity. Qed.
